@@ -17,6 +17,7 @@ class C02(MergeFamProp):
             D(M({'a': M({'x': S(1), 'y': S(2)}), 'b': Q([S(1), S(2)])}), M({'a': M({'x': S(5)}), 'b': Q([S(9)])})),
             D(M({'a': Q([S(1), M({'p': S(1), 'q': S(2)})])}), M({'a': M({1: M({'p': S(7)}), -2: S('z')})})),
             D(M({'a': Q([S(1)])}), M({'a': M({3: S(0)})})),
+            D(M({'a': Q([S(1), S(2), S(3)])}), M({'a': M({-1: S(9)})}), M({'a': M({-2: Q([S(7)]), 0: M({'z': S(1)})})})),
             D(M({'a': M({'b': M({'c': Q([S(1), S(2)])})})}), M({'a': S(3)}), M({'a': M({'b': Q([])})})),
         ]
 
